@@ -52,6 +52,7 @@ def dispatch (st : DState) (line : String) : DState × String :=
   | "representable" :: rest => (st, (handleRepresentable st rest).getD "bad-request")
   | "sertokens" :: rest => (st, (handleSerTokens st rest).getD "bad-request")
   | "standalone" :: rest => (st, (handleStandalone rest).getD "bad-request")
+  | "paramrt" :: rest => (st, (handleParamRt st rest).getD "bad-request")
   | "bytes" :: rest => (st, (handleBytes rest).getD "bad-request")
   | "arena" :: rest => (st, ((handleArena rest).orElse (fun _ => handleArenaRefine rest)).getD "bad-request")
   | _ => (st, "bad-request")
